@@ -488,8 +488,9 @@ def run_case(datasets, history, tape, want_log=False) -> CaseInfo:
 
 
 def _dropped_stage(log) -> bool:
-    """Did the recording thread ever withdraw a write request (clear write_to_disk itself) that the writer had not
-    picked up?  Used only to name the root-cause bucket of a loss, never to decide whether there is one."""
+    """Was a write request (write_to_disk set by the recording thread) ever erased - cleared by either thread -
+    before the writer picked it up?  Used only to name the root-cause bucket of a loss, never to decide whether
+    there is one."""
     requested = False
     for tid, kind, name, res in log:
         if name != "write_to_disk":
@@ -498,7 +499,7 @@ def _dropped_stage(log) -> bool:
             requested = True
         elif tid != 0 and kind == "wait" and res:
             requested = False
-        elif tid == 0 and kind == "clear" and requested:
+        elif kind == "clear" and requested:
             return True
     return False
 
@@ -521,11 +522,11 @@ def _compare(tag, fmt, got, exp, dontcare, frames, nfiles, dropped_stage):
     lost = [m for m in exp if m not in seen]
     dup = [m for m in exp if seen.get(m, 0) > 1]
     if lost:
-        key = "lost/staged-buffer-dropped-by-stop" if dropped_stage else f"lost/{fmt}"
+        key = "lost/staged-buffer-never-written" if dropped_stage else f"lost/{fmt}"
         return Violation(key, f"{tag}, {nfiles} file(s): {len(lost)} of {len(exp)} selected messages handed over while "
                          f"recording and not paused are not in the output: ids {lost[:8]}; read back {ids[:12]}"
-                         + ("; stop() withdrew a write request the writer thread had not served" if dropped_stage
-                            else ""), None)
+                         + ("; a write request was cleared before the writer thread had served it (stop() did not "
+                            "wait for the writer's cycle)" if dropped_stage else ""), None)
     if dup:
         return Violation(f"duplicate/{fmt}", f"{tag}: messages {dup[:6]} were written more than once; read "
                          f"back {ids[:16]}", None)
@@ -733,10 +734,10 @@ def shard(seed: int, n_examples: int, max_len: int, max_tape: int, dfs_slice, n_
 
 def run(ctx: RunContext) -> int:
     t0 = _real_time.time()
-    n = ctx.scale(500, 12000)
+    n = ctx.scale(400, 12000)
     max_len = 14 if ctx.quick else 24
     max_tape = 48 if ctx.quick else 96
-    limit = 1500 if ctx.quick else 4096
+    limit = 1200 if ctx.quick else 4096
     work = [(d, h, limit) for d, h in FIXED_DFS]
     if not ctx.quick:
         for fmt in FORMATTERS:
@@ -744,7 +745,7 @@ def run(ctx: RunContext) -> int:
                 for h in small_histories(4):
                     work.append(([{"fmt": fmt, "types": "ALL", "subdiv": sub}], h, limit))
     slices = [work[i::16] for i in range(16)]
-    n_dfs = ctx.scale(3, 40)
+    n_dfs = ctx.scale(2, 40)
     res = run_shards(shard, [(derive_seed(ctx.seed, i), n, max_len, max_tape, slices[i], n_dfs, limit)
                              for i in range(16)])
     if res.counters.get("dfs-histories-truncated"):
